@@ -50,22 +50,33 @@ def replay_stub(chk, scalar, solname, api, sig, why):
     def replay(ob, model):
         import replay as rp
         cxx = rp.SCALAR_CXX[scalar]
-        args = []
         decl = ''
-        for k, p in enumerate(sig.split(',') if sig else []):
-            if p == 'S':
-                args.append('(%s)0.37' % cxx)
-            elif p == 'int':
-                args.append('1')
-            else:
-                decl = '%s cbk(%s t){return t;}\n' % (cxx, cxx)
-                args.append('cbk')
-        src = ('#include <masa.h>\n#include <cstdio>\nusing namespace MASA;\n%sint main(){ masa_init<%s>("h","%s"); %s v = %s<%s>(%s);\n'
-               ' printf("\\nR v %%.25Lg\\n",(long double)v); printf("R is_sentinel %%d\\n", v == (%s)(-1.33)); return 0;}\n') % (decl, cxx, solname, cxx, api, cxx, ','.join(args), cxx)
+        parts = sig.split(',') if sig else []
+        # an integer argument (direction index) is tried with the solver's value and with valid and invalid indices: the stub's answer may not depend on it
+        ivals = [1]
+        if 'int' in parts:
+            ivals = []
+            for n_, v_ in sorted((model or {}).items()):
+                if n_.startswith('iarg') and v_ is not None and abs(v_) < 10 ** 6 and int(v_) not in ivals:
+                    ivals.append(int(v_))
+            ivals += [x for x in (1, 2, 3, 0, -1, 4, 7) if x not in ivals]
+        calls = []
+        for iv in ivals:
+            args = []
+            for k, p in enumerate(parts):
+                if p == 'S':
+                    args.append('(%s)0.37' % cxx)
+                elif p == 'int':
+                    args.append(str(iv))
+                else:
+                    decl = '%s cbk(%s t){return t;}\n' % (cxx, cxx)
+                    args.append('cbk')
+            calls.append(' { %s v = %s<%s>(%s); printf("\\nR v %%.25Lg\\n",(long double)v); printf("R is_sentinel %%d\\n", v == (%s)(-1.33)); }' % (cxx, api, cxx, ','.join(args), cxx))
+        src = ('#include <masa.h>\n#include <cstdio>\nusing namespace MASA;\n%sint main(){ masa_init<%s>("h","%s");\n%s\n return 0;}\n') % (decl, cxx, solname, '\n'.join(calls))
         rc, out, err = chk.lib().run(src)
-        bad = ('R is_sentinel 1' not in out) or ('MASA ERROR' not in out) or rc != 0
+        bad = (out.count('R is_sentinel 1') != len(calls)) or (out.count('MASA ERROR') < len(calls)) or rc != 0
         if bad:
-            path = chk.save_replay(ob, dict(obligation=ob.name, solution=solname, api=api, sig=sig, stdout=out[-2000:], rc=rc, why=why), src)
+            path = chk.save_replay(ob, dict(obligation=ob.name, solution=solname, api=api, sig=sig, integer_arguments_tried=ivals, stdout=out[-2000:], rc=rc, why=why), src)
             return dict(reproduced=True, path=path, detail='%s<%s>(%s) on %s: %s' % (api, scalar, sig, solname, why))
         return dict(reproduced=False, path=None, detail='real library returns the sentinel and prints MASA ERROR')
     return replay
